@@ -15,7 +15,7 @@ PROFILE = gen.Profile(
     max_per_group=2, p_conv=0.3, styles=("name", "name", "callable", "decorator"),
     providers=("machine", "model", "L0", "L1"),
     p_nested=0.35, p_raise=0.1, p_validator_raise=0.1, p_unknown_event=0.15, n_ops=(2, 7),
-    p_rtc_off=0.45, p_allow=0.4, p_cur0=0.15, p_start=0.3, p_activate=0.05,
+    p_rtc_off=0.45, p_allow=0.4, p_cur0=0.15, p_start=0.3, p_activate=0.05, p_set_allow=0.08,
 )
 PROFILE_ASYNC = gen.Profile(**{**PROFILE.__dict__, "p_coro": 0.4, "drivers": ("facade", "loop")})
 
@@ -39,6 +39,7 @@ def gen_world(rng, P, name):
     scn.listeners_ctor = sorted({c.provider for c in scn.cbs if c.provider.startswith("L")})
     if rng.random() < 0.25:
         scn.state_field = rng.choice(["status", "st8", "_s"])
+    scn.bind_model = rng.random() < 0.4
     w.families.append(W.Family(scn=scn, cls_name="C17_" + name.replace("-", "_")))
     base = W.member_variant(rng, P, scn, f"{name}-m0")
     base.state_field = scn.state_field
@@ -69,6 +70,8 @@ def gen_world(rng, P, name):
                 suffix.append(("activate",))
             elif r < 0.3:
                 suffix.append((rng.choice(["allowed", "events"]),))
+            elif scn.bind_model and r < 0.65:
+                suffix.append(("send", rng.choice(evs), "modelbound"))   # through the trigger bound onto the (copied) model
             else:
                 suffix.append(("send", rng.choice(evs)))
         cs = copy.deepcopy(w.members[src].scn)
@@ -88,6 +91,17 @@ def gen_world(rng, P, name):
                 continue
             busy.add((c.id, tid))
             base.acts.insert(0, (c.id, tid, tid, rng.choice(eng.RET_TOKS), None, [rng.choice(evs)]))
+    if rng.random() < 0.25:
+        # another class with the same module and __name__ (a re-declared / factory-made class) exists in the
+        # process: a copy must still be an instance of *its* class. (pickle refuses such classes by itself.)
+        twin = gen.gen_scenario(rng, P, f"{name}-twin")
+        twin.listeners_ctor = sorted({c.provider for c in twin.cbs if c.provider.startswith("L")})
+        w.families.append(W.Family(scn=twin, cls_name=w.families[0].cls_name))
+        tm = W.member_variant(rng, P, twin, f"{name}-m{len(w.members)}")
+        tm.ops = tm.ops[:2]
+        w.members.append(W.Member(fam=1, scn=tm))
+        w.clones = [(a, b, "deepcopy", k) for (a, b, _m, k) in w.clones]
+        w.twin_member = len(w.members) - 1
     if scn.listener_kind == "hooks" and any(c[2] == "pickle" for c in w.clones):
         # plain functions stored as instance attributes are not picklable (not a property of the library)
         w.clones = [(a, b, "deepcopy", k) for (a, b, _m, k) in w.clones]
@@ -114,6 +128,10 @@ def gen_world(rng, P, name):
         rest += [d] * (len(w.members[d].scn.ops) - n)
     rng.shuffle(rest)
     w.order = order + rest
+    tw = getattr(w, "twin_member", None)
+    if tw is not None:      # the twin is defined (and used) right after the original class, before any clone
+        w.order = [0] + [tw] * len(w.members[tw].scn.ops) + w.order[1:] if w.order and w.order[0] == 0 else \
+            [tw] * len(w.members[tw].scn.ops) + w.order
     return w
 
 
